@@ -842,7 +842,17 @@ def _validate_skip_unknown(skip_unknown):
 def _should_skip(selector, skip_unknown):
   """Checks whether `selector` should be skipped (if unknown)."""
   _validate_skip_unknown(skip_unknown)
-  if _REGISTRY.matching_selectors(selector):
+  parse_context = _parse_context()
+  if parse_context._dynamic_registration:  # pylint: disable=protected-access
+    # With dynamic registration, "known" means resolvable through the current
+    # file's imports (whether or not it has been registered already).
+    try:
+      known = parse_context.get_configurable(selector) is not None
+    except (NameError, AttributeError):
+      known = False
+  else:
+    known = bool(_REGISTRY.matching_selectors(selector))
+  if known:
     return False  # Never skip known configurables.
   if isinstance(skip_unknown, (list, tuple, set)):
     return selector in skip_unknown
